@@ -53,6 +53,23 @@ CLAIMED = {
         technique="contract-based deductive verification: contracts incl. fresh-allocation frames, VCs from clang's "
                   "AST, z3 bit-vectors",
     ),
+    'C16': dict(
+        category='proof',
+        text="Index, slice and pointer-arithmetic functions are verified against the byte model: an array index is "
+             "accepted iff 0 <= i < n (owning pointer: iff i == 0), otherwise IndexError with memory untouched; the "
+             "returned address is A + i*z inside [A, A+n*z); a slice is accepted iff 0 <= i <= j <= n with no step "
+             "and yields a view at A + i*z of length j-i; slice assignment from bytes requires exactly j-i values "
+             "and writes only the view; p +/- i is p + i*z and pointer difference divides by z; lemmas give "
+             "(p+i)-p == i and (p+i)[j] aliasing p[i+j].",
+        design_ref='DESIGN.md section 4 C16',
+        note=COMMON_NOTE + "Scope: integer keys, slices with int/None members. Not in the proved scope: the array-"
+             "cdata memmove path and the generic-iterator path of slice assignment, ffi.addressof/offsetof entry "
+             "points (direct_typeoffsetof), pointer cdata dereference validity (a precondition, as in C). "
+             "new_array_type is a trusted cffi function here. Arithmetic lemma instances are proved in Lean "
+             "(lemmas/Arith.lean, re-checked in the thorough tier).",
+        technique="contract-based deductive verification: bounds/address contracts, VCs from clang's AST, z3/cvc5 "
+                  "with uninterpreted-product abstraction plus Lean-proved arithmetic lemma instances",
+    ),
     'C25': dict(
         category='proof',
         text="search_sorted (the binary search behind all four runtime lookups) is verified with a loop invariant "
